@@ -276,6 +276,69 @@ fn run_interleavings_here(jobs: &[Job]) -> Result<u64, String> {
     .and_then(|x| x)
 }
 
+/// Builders MOVED between threads: job `a` is started on a fresh thread A
+/// (its first `k` API calls), handed to a fresh thread B which - variant 0 -
+/// finishes it and then builds `b` from scratch, - variant 1 - drops it
+/// unfinished and builds `b`, - variant 2 - first builds `b`, then finishes
+/// `a`. Every finished builder must produce the bytes of its solo run.
+pub fn run_thread_moves(a: &Job, b: &Job) -> Result<u64, String> {
+    let want_a = solo(a)?;
+    let want_b = solo(b)?;
+    let mut n = 0;
+    for k in 1..Runner::steps(a) {
+        for variant in 0..3 {
+            let r: Result<(Option<Vec<u8>>, Vec<u8>), String> = std::thread::scope(|sc| {
+                let started = sc
+                    .spawn(|| -> Result<Runner<'_>, String> {
+                        let mut ra = Runner::new(a);
+                        for _ in 0..k {
+                            ra.advance()?;
+                        }
+                        Ok(ra)
+                    })
+                    .join()
+                    .map_err(|_| "thread A panicked".to_string())??;
+                sc.spawn(move || -> Result<(Option<Vec<u8>>, Vec<u8>), String> {
+                    let mut ra = started;
+                    let finish_a = |ra: &mut Runner<'_>| -> Result<Vec<u8>, String> {
+                        while ra.out.is_none() {
+                            ra.advance()?;
+                        }
+                        Ok(ra.out.take().unwrap())
+                    };
+                    match variant {
+                        0 => {
+                            let oa = finish_a(&mut ra)?;
+                            Ok((Some(oa), solo(b)?))
+                        }
+                        1 => {
+                            drop(ra);
+                            Ok((None, solo(b)?))
+                        }
+                        _ => {
+                            let ob = solo(b)?;
+                            Ok((Some(finish_a(&mut ra)?), ob))
+                        }
+                    }
+                })
+                .join()
+                .map_err(|_| "thread B panicked".to_string())?
+            });
+            let (oa, ob) = r.map_err(|e| format!("builder moved to another thread after {} calls (variant {}): {}", k, variant, e))?;
+            n += 1;
+            if let Some(oa) = oa {
+                if oa != want_a {
+                    return Err(format!("a builder started on one thread ({} calls) and finished on another (variant {}) produced different bytes than its solo run", k, variant));
+                }
+            }
+            if ob != want_b {
+                return Err(format!("a build on a thread that {} a builder started elsewhere ({} calls) produced different bytes than its solo run", ["had finished", "had dropped", "then finished"][variant], k));
+            }
+        }
+    }
+    Ok(n)
+}
+
 fn jobs_list() -> Vec<Job> {
     let k = |s: &[&str]| -> Vec<Key> { s.iter().map(|x| x.as_bytes().to_vec()).collect() };
     vec![
@@ -443,6 +506,11 @@ pub fn replay(case: &Value) -> Result<String, String> {
             let kvs = corpus_sample(case["name"].as_str().unwrap(), case["take"].as_u64().unwrap() as usize, case["set"].as_bool().unwrap())?;
             run_fronts(&kvs, &[]).map(|n| format!("{} builds byte-identical", n))
         }
+        "thread-moves" => {
+            let all: Vec<Job> = jobs_list().into_iter().chain(wide_jobs()).collect();
+            let ij: Vec<usize> = case["jobs"].as_array().unwrap().iter().map(|i| i.as_u64().unwrap() as usize).collect();
+            run_thread_moves(&all[ij[0]], &all[ij[1]]).map(|n| format!("{} hand-overs, all byte-identical to the solo runs", n))
+        }
         "interleave-wide" => {
             let all = wide_jobs();
             let jobs: Vec<Job> = case["jobs"].as_array().unwrap().iter().map(|i| all[i.as_u64().unwrap() as usize].clone()).collect();
@@ -516,7 +584,7 @@ pub fn plan(tier: Tier) -> Plan {
     let mut p = Plan::new("C15", "model_checking");
     let thorough = tier.thorough();
     let scan = shared_state_scan();
-    p.rule = "(1) for every accepted sequence of the scope (subsets of U_ab3 with <= 4 keys quick / all thorough, x value patterns; fan-out families) the bytes through all 23 front ends (17 entry points + 6 usage variants: builders kept in use after rejected calls, several bulk calls on a populated builder), Builder::memory, a BufWriter, a 3-bytes-per-call sink and Map::from_iter are identical, and the raw front ends agree under the tiny cache geometries 1x1, 2x2, 3x3 (where evictions make the bytes depend on cache behaviour), also when repeated; the same for samples of the shipped corpora (400..10000 keys), where the DEFAULT cache is under pressure; the same for a long-tail family (10..64 keys of 66..502 bytes sharing long tails); (1b) bulk-load size ladder: 1 .. 400004 (thorough 3.3 million) generated items through every bulk entry point (iterators with exact size hints, streams, from_iter) against single inserts; (2) EVERY call-level interleaving (multiset permutations of the API calls new/insert.../finish) of every ordered pair (thorough: also triples of shorter jobs) of 6 builder jobs of different kinds and geometries driven from one thread: each builder must produce the bytes of its solo run (each pair runs on a fresh thread; pairs of jobs with wide nodes included); (3) the whole-scope digest computed twice on one thread, on 8 free-running OS threads and in 4 child processes (std RandomState differs per process) must be equal - a repetition over an uncontrolled seed, reported as such. non-trivial = interleavings with at least one context switch".into();
+    p.rule = "(1) for every accepted sequence of the scope (subsets of U_ab3 with <= 4 keys quick / all thorough, x value patterns; fan-out families) the bytes through all 23 front ends (17 entry points + 6 usage variants: builders kept in use after rejected calls, several bulk calls on a populated builder), Builder::memory, a BufWriter, a 3-bytes-per-call sink and Map::from_iter are identical, and the raw front ends agree under the tiny cache geometries 1x1, 2x2, 3x3 (where evictions make the bytes depend on cache behaviour), also when repeated; the same for samples of the shipped corpora (400..10000 keys), where the DEFAULT cache is under pressure; the same for a long-tail family (10..64 keys of 66..502 bytes sharing long tails); (1b) bulk-load size ladder: 1 .. 400004 (thorough 3.3 million) generated items through every bulk entry point (iterators with exact size hints, streams, from_iter) against single inserts; (2) EVERY call-level interleaving (multiset permutations of the API calls new/insert.../finish) of every ordered pair (thorough: also triples of shorter jobs) of 6 builder jobs of different kinds and geometries driven from one thread: each builder must produce the bytes of its solo run (each pair runs on a fresh thread; pairs of jobs with wide nodes included); (2b) builders MOVED between fresh OS threads: a job started on thread A (every split point), handed to thread B, which finishes it and then builds another job / drops it and builds / builds first and then finishes it - every finished builder must produce the bytes of its solo run; (3) the whole-scope digest computed twice on one thread, on 8 free-running OS threads and in 4 child processes (std RandomState differs per process) must be equal - a repetition over an uncontrolled seed, reported as such. non-trivial = interleavings with at least one context switch".into();
     p.assumptions = vec![
         format!("the library has no synchronisation operation and no shared mutable state, so thread interleavings are one Mazurkiewicz trace and a controlled scheduler (loom/shuttle) would have no scheduling point to branch on; scan of /repo/src for static mut/thread_local/lazy_static/OnceCell/OnceLock/Atomic/Mutex/RwLock/RandomState/DefaultHasher/unsafe outside hook items found: {}", if scan.is_empty() { "nothing".to_string() } else { scan.join("; ") }),
         "call-level interleavings of builders on one thread expose any instance-crossing (global or thread-local) state".into(),
@@ -613,6 +681,25 @@ pub fn plan(tier: Tier) -> Plan {
                     match run_bulk(n, set) {
                         Ok(c) => { st.evals += c; st.transitions += c * n as u64; st.count("bulk_builds_compared", c); }
                         Err(msg) => rep.violation(format!("bulk {} set={}", n, set), msg, json!({"kind": "bulk", "n": n, "set": set})),
+                    }
+                }));
+            }
+        }
+    }
+    // builders moved between fresh threads
+    {
+        let all: Vec<Job> = jobs_list().into_iter().chain(wide_jobs()).collect();
+        for i in 0..all.len() {
+            for j in 0..all.len() {
+                if (all[i].kvs.len() > 8 || all[j].kvs.len() > 8) && !(thorough || (i + j) % 3 == 0) {
+                    continue;
+                }
+                let (a, b) = (all[i].clone(), all[j].clone());
+                p.units.push(unit("builders-moved-between-fresh-threads", format!("thread moves {} {}", i, j), move |st, rep| {
+                    st.states += 1;
+                    match run_thread_moves(&a, &b) {
+                        Ok(n) => { st.evals += n; st.transitions += n * 3; st.nontrivial += n; st.count("builder_hand_overs", n); }
+                        Err(msg) => rep.violation(format!("thread moves {} {}", i, j), msg, json!({"kind": "thread-moves", "jobs": [i, j]})),
                     }
                 }));
             }
